@@ -1084,6 +1084,22 @@ def fam_search(P, n, tier):
                 if P.chance(0.2) and q:
                     q = q[:-1]
                 sc.op('sv %d %s' % (c.ci, hx(q)) if q else 'sv %d E' % c.ci)
+        # cat_search_command_group_by_name: named / unnamed / duplicate group names
+        gpool = ['std', 'Std', 'x']
+        for gi in range(len(sc.groups)):
+            if P.chance(0.75):
+                sc.gnames[gi] = P.choice(gpool)
+        for j in range(P.randint(3, 8)):
+            roll = P.random()
+            if roll < 0.6:
+                q = P.choice(sorted(set(sc.gnames.values())) or gpool)
+            elif roll < 0.75:
+                q = P.choice(gpool)[:-1]
+            elif roll < 0.9:
+                q = P.choice(gpool) + 'x'
+            else:
+                q = ''
+            sc.op('sg ' + hx(q) if q else 'sg E')
         sc.feed('AT\n')
         sc.drain(200)
         out.append(sc)
